@@ -15,6 +15,7 @@ S: the same five clauses written independently in Python on the real objects (in
 """
 import os
 from fractions import Fraction
+import math
 import numpy as np
 
 import gen
@@ -242,8 +243,16 @@ def start_mesh(ck, case):
         ck.count("skeleton_gen_parsed_" + ("thinned" if case.get("thin", True) else "as_drawn"))
         return out, None
     if t == "tess":
-        pts = rng.random((case["n"], 2)) * 100
-        centers = [tuple(p) for p in pts]
+        if case.get("lattice"):
+            # exactly square / hexagonal (rows shifted by half a spacing) centre sets: ridges parallel to the axes
+            m_, k_, sp = case["m"], case["k"], case["spacing"]
+            if case["lattice"] == "square":
+                pts = np.array([(5.0 + i * sp, 7.0 + j * sp) for i in range(m_) for j in range(k_)], dtype=float)
+            else:
+                pts = np.array([(5.0 + i * sp * math.sqrt(3) / 2, 7.0 + (j + 0.5 * (i % 2)) * sp) for i in range(m_) for j in range(k_)], dtype=float)
+        else:
+            pts = rng.random((case["n"], 2)) * 100
+        centers = [tuple(float(q) for q in p) for p in pts]
         if case.get("ring"):
             centers = centers + ftess.add_voronoi_centers(centers)
         el = impl.quiet(ftess.create_lattice_elements, centers, max_distance=case.get("maxd", 75))
@@ -343,6 +352,10 @@ def run(ck):
             cases.append({"type": "tess", "seed": int(ck.rng.integers(1 << 30)), "n": int(ck.rng.integers(12, 60)), "ring": bool(i % 2),
                           "maxd": [75, 40, 1e9][i % 3], "steps": [["frame"], ["genmesh", 3, True]]})
             cases.append({"type": "wkt", "seed": int(ck.rng.integers(1 << 30)), "sites": int(ck.rng.integers(10, 25)), "steps": [["genmesh", 4, False]]})
+        for i in range(4 if ck.tier == "quick" else 16):
+            cases.append({"type": "tess", "seed": int(ck.rng.integers(1 << 30)), "lattice": ["square", "hex"][i % 2], "m": int(ck.rng.integers(3, 7)),
+                          "k": int(ck.rng.integers(3, 7)), "spacing": float(ck.rng.choice([1.0, 4.0, 10.0])), "ring": bool((i // 2) % 2),
+                          "maxd": [75, 1e9][(i // 2) % 2], "steps": [["frame"], ["genmesh", 3, True]]})
         for rs in WKT_ROWSETS:
             cases.append({"type": "wkt", "wkt": "rows", "seed": 0, "rows": rs["rows"], "steps": [["frame"]]})
         for i in range(5 if ck.tier == "quick" else 30):
